@@ -1,6 +1,6 @@
 ------------------------------- MODULE Rewrites -------------------------------
 (***************************************************************************)
-(* Catalogue of construction-time rewrite rules of claripy                 *)
+(* Catalogue of construction-time rewrite rules of claripy (23 rules)      *)
 (* (simplifications.py, ast/bool.py:If) stated as identities over the      *)
 (* reference semantics (BVBits).  Each rule R is the SET OF ITS            *)
 (* COUNTEREXAMPLES  CE_R(w) = { operands : guard /\ lhs # rhs }, expected  *)
@@ -102,7 +102,52 @@ CE_ExtractExt(w) == {x \in BV(w) : \E hi \in 0..(w-1) : \E lo \in 0..hi :
 CE_RotateIdiom(w) == {t \in BV(w) \X (1..(w-1)) :
    BOr(ShlK(t[1], t[2]), LShrK(t[1], w - t[2])) # RotLK(t[1], t[2])}
 
-Rules == <<"ShlShl", "ShiftZero", "MaskXorEq", "XorOneEq", "SubEq", "InvertIf", "NestedIf", "IfEq", "SubFlatten",
+\* ---------------- second batch ----------------
+\* branch-free signed max / min                                        [bitwise_xor_simplifier_minmax]
+\*   q ^ (((((q-r) ^ q) & (q^r)) ^ (q-r)) >> (w-1)) & (q^r))  ->  If(q <=s r, r, q)       (max)
+\*   q ^ (((((r-q) ^ r) & (q^r)) ^ (r-q)) >> (w-1)) & (q^r))  ->  If(q <=s r, q, r)       (min)
+CE_MinMaxIdiom(w) == {t \in BV(w) \X BV(w) :
+   LET q == t[1]  r == t[2]  tt == BXor(q, r)
+       s1 == BSub(q, r)  m1 == BAnd(AShrK(BXor(BAnd(BXor(s1, q), tt), s1), w - 1), tt)
+       s2 == BSub(r, q)  m2 == BAnd(AShrK(BXor(BAnd(BXor(s2, r), tt), s2), w - 1), tt)
+   IN \/ BXor(q, m1) # (IF SCmp(q, r) <= 0 THEN r ELSE q)
+      \/ BXor(q, m2) # (IF SCmp(q, r) <= 0 THEN q ELSE r)}
+\* a == c1 && a == c2 (c1 # c2) -> False ;  a >= c && a != c -> a > c ;  a == c1 && a != c2 -> a == c1 or False
+CE_AndOneVar(w) == {t \in BV(w) \X BV(w) \X BV(w) :
+   LET a == t[1]  c1 == t[2]  c2 == t[3] IN
+   \/ (c1 # c2 /\ (a = c1 /\ a = c2))
+   \/ ((UCmp(a, c1) >= 0 /\ a # c1) # (UCmp(a, c1) > 0))
+   \/ ((a = c1 /\ a # c2) # (IF c1 = c2 THEN FALSE ELSE a = c1))}
+\* (e ^ 1) != 0 -> e != 1 ;  ((e & m) ^ m) != 0 -> (e & m) == 0 for single-bit m                  [ne_simplifier]
+CE_XorNe(w) == {t \in BV(w) \X BV(w) :
+   \/ (BXor(t[1], One(w)) # Zero(w)) # (t[1] # One(w))
+   \/ (PopCount(t[2]) = 1 /\ (BXor(BAnd(t[1], t[2]), t[2]) # Zero(w)) # (BAnd(t[1], t[2]) = Zero(w)))}
+\* LShR / >> of ZeroExt(k, x) (or Concat(0_k, x)) by more than the width of x -> 0         [rshift_/lshr_simplifier]
+CE_ShrZext(w) == {t \in BV(w) \X (1..2) \X (0..(w + 3)) :
+   t[3] > w /\ (LShrK(BZExt(t[2], t[1]), t[3]) # Zeros(w + t[2]) \/ AShrK(BZExt(t[2], t[1]), t[3]) # Zeros(w + t[2]))}
+\* (A & m) == b where the high zb bits of the constant mask m are zero          [and_mask_comparing_against_constant]
+\*   high zb bits of b not all zero -> False ;  otherwise compare the low w - zb bits only
+HighZeros(m) == LET w == Len(m) IN FoldLeft(LAMBDA acc, i : IF acc[2] /\ m[i] = 0 THEN <<acc[1] + 1, TRUE>> ELSE <<acc[1], FALSE>>,
+                                            <<0, TRUE>>, RIdx(w))[1]
+CE_MaskCmp(w) == {t \in BV(w) \X BV(w) \X BV(w) :
+   LET A == t[1]  m == t[2]  b == t[3]  zb == HighZeros(m)  lhs == (BAnd(A, m) = b) IN
+   zb > 0 /\
+   (IF ~IsZero(SubSeq(b, w - zb + 1, w)) THEN lhs # FALSE
+    ELSE IF zb = w THEN lhs # (Zero(w) = b)
+    ELSE lhs # (BAnd(SubSeq(A, 1, w - zb), SubSeq(m, 1, w - zb)) = SubSeq(b, 1, w - zb)))}
+\* Extract(hi, 0, ZeroExt(k, A)) == b with hi >= |A|  ->  ZeroExt(hi + 1 - |A|, A) == b   [zeroext_extract_comparing]
+CE_ExtZextCmp(w) == {t \in BV(w) \X (1..2) \X (0..(w + 1)) :
+   LET A == t[1]  k == t[2]  hi == t[3] IN
+   hi >= w /\ hi <= w + k - 1 /\ BExtract(hi, 0, BZExt(k, A)) # BZExt(hi + 1 - w, A)}
+\* byte reversal (evaluated once, at width 16):  Reverse(Reverse(x)) = x ;                     [bv_reverse_simplifier]
+\*   Reverse(Extract(hi, lo, Reverse(x))) = Extract(n-lo-1, n-hi-1, x) at byte boundaries ; Reverse(Concat(bytes)) = Concat(reversed)
+CE_Reverse(w) == IF w # 1 THEN {} ELSE {x \in BV(16) :
+   \/ BReverse(BReverse(x)) # x
+   \/ \E p \in {<<7, 0>>, <<15, 8>>, <<15, 0>>} :
+         BReverse(BExtract(p[1], p[2], BReverse(x))) # BExtract(16 - p[2] - 1, 16 - p[1] - 1, x)
+   \/ BReverse(x) # BConcat(BExtract(7, 0, x), BExtract(15, 8, x))}
+
+Rules == <<"MinMaxIdiom", "AndOneVar", "XorNe", "ShrZext", "MaskCmp", "ExtZextCmp", "Reverse", "ShlShl", "ShiftZero", "MaskXorEq", "XorOneEq", "SubEq", "InvertIf", "NestedIf", "IfEq", "SubFlatten",
            "Units", "NotCmp", "ZeroExtEq", "ZeroExtEq2", "ExtractConcat", "ExtractExt", "RotateIdiom">>
 CE(r, w) ==
   CASE r = "ShlShl" -> CE_ShlShl(w) [] r = "ShiftZero" -> CE_ShiftZero(w) [] r = "MaskXorEq" -> CE_MaskXorEq(w)
@@ -111,10 +156,24 @@ CE(r, w) ==
     [] r = "Units" -> CE_Units(w) [] r = "NotCmp" -> CE_NotCmp(w) [] r = "ZeroExtEq" -> CE_ZeroExtEq(w)
     [] r = "ZeroExtEq2" -> CE_ZeroExtEq2(w) [] r = "ExtractConcat" -> CE_ExtractConcat(w)
     [] r = "ExtractExt" -> CE_ExtractExt(w) [] r = "RotateIdiom" -> CE_RotateIdiom(w)
+    [] r = "MinMaxIdiom" -> CE_MinMaxIdiom(w) [] r = "AndOneVar" -> CE_AndOneVar(w) [] r = "XorNe" -> CE_XorNe(w)
+    [] r = "ShrZext" -> CE_ShrZext(w) [] r = "MaskCmp" -> CE_MaskCmp(w) [] r = "ExtZextCmp" -> CE_ExtZextCmp(w)
+    [] r = "Reverse" -> CE_Reverse(w)
 
 \* every rule holds at every width; every negative control is refuted at some width
 ASSUME \A i \in 1..Len(Rules) : \A w \in Widths :
          LET n == Cardinality(CE(Rules[i], w)) IN PrintT(<<"RULE", Rules[i], w, n>>) /\ n = 0
+\* negative controls of the second batch: max and min exchanged; the mask dropped although b has high bits set
+Ctl_MinMaxSwapped(w) == {t \in BV(w) \X BV(w) :
+   LET q == t[1]  r == t[2]  tt == BXor(q, r)  s1 == BSub(q, r)
+       m1 == BAnd(AShrK(BXor(BAnd(BXor(s1, q), tt), s1), w - 1), tt)
+   IN BXor(q, m1) # (IF SCmp(q, r) <= 0 THEN q ELSE r)}
+Ctl_MaskCmpNoHighCheck(w) == {t \in BV(w) \X BV(w) \X BV(w) :
+   LET A == t[1]  m == t[2]  b == t[3]  zb == HighZeros(m) IN
+   zb > 0 /\ zb < w /\ (BAnd(A, m) = b) # (BAnd(SubSeq(A, 1, w - zb), SubSeq(m, 1, w - zb)) = SubSeq(b, 1, w - zb))}
+ASSUME LET a == Cardinality(UNION {Ctl_MinMaxSwapped(w) : w \in Widths})
+           b == Cardinality(UNION {Ctl_MaskCmpNoHighCheck(w) : w \in Widths})
+       IN PrintT(<<"CONTROL2", a, b>>) /\ a > 0 /\ b > 0
 ASSUME LET a == Cardinality(UNION {Old_ShlShl(w) : w \in Widths})
            b == Cardinality(UNION {Old_MaskXorEq(w) : w \in Widths})
            c == Cardinality(UNION {Old_InvertIf(w) : w \in Widths})
